@@ -40,6 +40,7 @@ const (
 	exCompiled          // server only: precompiled ping, then a message
 	exStack             // compressed message through the documented writer/reader stacks
 	exOwnBuf            // message through NewWriterBuffer over a buffer the session owns and reuses, DisableFlush (grows)
+	exCipher            // client only: header by hand, payload through wsutil.CipherWriter from a buffer the session owns (capacity = a pool class) and keeps
 )
 
 type exchange struct {
@@ -62,6 +63,8 @@ type script struct {
 	CloseCode int
 	CloseKind int  // 0 short reason, 1 long reason, 2 invalid code with a long reason, 3 invalid UTF-8 in a long reason, 4 no reason
 	WSS       bool // the client first probes a wss:// dial through the default TLS client (the peer never answers)
+	LongHdr   bool // both peers send a header line longer than the default I/O buffer (and shorter than two of them)
+	Debug     bool // the client dials through the process-wide wsutil.DebugDialer value
 }
 
 var sizes = []int{0, 1, 10, 60, 65, 100, 125, 126, 127, 128, 200, 300, 1000, 4096, 5000, 70000}
@@ -96,6 +99,15 @@ func makeScript(seed uint64) *script {
 	sc.CloseCode = []int{1000, 1001, 3000, 4000}[p.intn(4)]
 	sc.CloseKind = p.intn(5)
 	sc.WSS = p.intn(3) == 0
+	// Not with the zero-copy ExtensionCustom server: its views into the request
+	// bytes only stay put while the whole request fits the read buffer.
+	sc.LongHdr = p.intn(4) == 0 && sc.SrvKind != 3
+	sc.Debug = !sc.Flate && len(sc.Protocols) == 0 && !sc.LongHdr && p.intn(3) == 0
+	for i := range sc.Steps {
+		if sc.Steps[i].FromCli && sc.Steps[i].Kind == exMsg && p.intn(3) == 0 {
+			sc.Steps[i].Kind = exCipher
+		}
+	}
 	return sc
 }
 
@@ -158,6 +170,23 @@ type side struct {
 	flate  bool // negotiated
 	state  ws.State
 	own    []byte // a write buffer the session owns and reuses
+	kept   []keptBuf
+}
+
+// keptBuf is a buffer the session handed to a non-mutating write API and
+// still owns afterwards.
+type keptBuf struct {
+	step int
+	buf  []byte
+	sum  uint32
+}
+
+func ceilPow2(n int) int {
+	c := 128
+	for c < n {
+		c <<= 1
+	}
+	return c
 }
 
 func flateCompressor(w io.Writer) wsflate.Compressor {
@@ -234,6 +263,39 @@ func wssProbe(sc *script, tr *transcript) {
 	tr.add("wss probe: dialed %s, ClientHello server_name=%q, failed=%v", host, sniOf(hc.out), err != nil)
 }
 
+// longValue is a header value longer than the default I/O buffer (4096) and
+// shorter than two of them, different per session.
+func longValue(seed uint64) string {
+	n := 4200 + int(seed%3000)
+	b := make([]byte, n)
+	x := prng{x: seed}
+	for i := range b {
+		b[i] = byte('a' + x.next()%26)
+	}
+	return string(b)
+}
+
+func dialHost(sc *script) string { return fmt.Sprintf("s%d.sim", sc.Seed) }
+
+// SharedDebugDialer is rebuilt by the driver before every run, with the
+// connections of the run's sessions behind NetDial (a map only read while
+// tasks run). Its callbacks keep nothing.
+var SharedDebugDialer *wsutil.DebugDialer
+
+func NewSharedDebugDialer(conns map[string]net.Conn) *wsutil.DebugDialer {
+	return &wsutil.DebugDialer{
+		Dialer: ws.Dialer{NetDial: func(ctx context.Context, network, addr string) (net.Conn, error) {
+			c := conns[addr]
+			if c == nil {
+				return nil, fmt.Errorf("sim: no such host %q", addr)
+			}
+			return c, nil
+		}},
+		OnRequest:  func(b []byte) { _ = sum(b) },
+		OnResponse: func(b []byte) { _ = sum(b) },
+	}
+}
+
 // SharedFlateDialer is rebuilt by the driver before every run.
 var SharedFlateDialer *ws.Dialer
 
@@ -264,9 +326,17 @@ func runClient(sc *script, conn net.Conn, tr *transcript) {
 		hs  ws.Handshake
 		err error
 	)
-	if len(sc.Protocols) == 0 && !sc.Flate {
+	switch {
+	case sc.Debug:
+		// Like an application with one configured debugging dialer for all
+		// its connections.
+		_, br, hs, err = SharedDebugDialer.Dial(context.Background(), fmt.Sprintf("ws://%s/session/%d", dialHost(sc), sc.Seed%1000))
+	case sc.LongHdr:
+		d.Header = ws.HandshakeHeaderString("Cookie: " + longValue(sc.Seed) + "\r\nX-After: " + fmt.Sprint(sc.Seed%97) + "\r\n")
+		br, hs, err = d.Upgrade(conn, u)
+	case len(sc.Protocols) == 0 && !sc.Flate:
 		br, hs, err = ws.DefaultDialer.Upgrade(conn, u)
-	} else {
+	default:
 		br, hs, err = d.Upgrade(conn, u)
 	}
 	if br != nil {
@@ -332,6 +402,20 @@ func runServer(sc *script, conn net.Conn, tr *transcript) {
 		if sc.Flate {
 			u.Negotiate = ext.Negotiate
 		}
+		if sc.LongHdr {
+			want := longValue(sc.Seed)
+			u.Header = ws.HandshakeHeaderString("Set-Cookie: " + longValue(sc.Seed+1) + "\r\n")
+			u.OnHeader = func(k, v []byte) error {
+				switch string(k) {
+				case "Cookie":
+					pbytes.Put(pbytes.GetLen(4096 + int(sc.Seed%4000))) // a scheduling point while the line is in use
+					tr.add("handshake: long Cookie line arrived intact=%v", string(v) == want)
+				case "X-After":
+					tr.add("handshake: header after the long line: %q", v)
+				}
+				return nil
+			}
+		}
 		hs, err = u.Upgrade(conn)
 	case 3:
 		var seen []httphead.Option // semantic copies, taken while the views are valid
@@ -392,6 +476,11 @@ func (s *side) run() {
 			if !s.receive(i, ex) {
 				return
 			}
+		}
+	}
+	for _, k := range s.kept {
+		if sum(k.buf) != k.sum {
+			s.tr.add("step %d: a buffer the session owns (handed to CipherWriter.Write) was modified later", k.step)
 		}
 	}
 	// Closing handshake: the client starts it.
@@ -486,6 +575,19 @@ func (s *side) send(i int, ex exchange) bool {
 			}
 			err = ws.WriteFrame(s.conn, f)
 		}
+	case exCipher:
+		// The payload lives in a buffer of the session whose capacity happens
+		// to be one of the pool's size classes; the session keeps it.
+		own := make([]byte, len(p), ceilPow2(len(p)))
+		copy(own, p)
+		h := ws.Header{Fin: true, OpCode: opOf(ex), Masked: true, Mask: ws.NewMask(), Length: int64(len(own))}
+		if err = ws.WriteHeader(s.conn, h); err == nil {
+			_, err = wsutil.NewCipherWriter(s.conn, h.Mask).Write(own)
+		}
+		if sum(own) != keep {
+			s.tr.add("step %d: the caller's payload was modified by the write", i)
+		}
+		s.kept = append(s.kept, keptBuf{i, own, keep})
 	case exOwnBuf:
 		if s.own == nil {
 			s.own = make([]byte, 256)
